@@ -147,8 +147,10 @@ func TestC15(t *testing.T) {
 			order = append(order, order...)
 			for _, m := range order {
 				for _, inbound := range []int{1, 0} {
-					for _, bypass := range []bool{false, true} {
-						if bypass && rng.IntN(4) != 0 {
+					// caller-supplied headers the proxy knows about: none of them may influence the decision
+					for hv := 0; hv < 4; hv++ {
+						bypass, intra := hv&1 == 1, hv&2 == 2
+						if hv != 0 && rng.IntN(4) != 0 {
 							continue
 						}
 						conn, be := pp.FromRemote, pp.Local
@@ -158,6 +160,11 @@ func TestC15(t *testing.T) {
 						var md metadata.MD
 						if bypass {
 							md = metadata.Pairs(common.RequestTranslationHeaderName, "false")
+						}
+						if intra {
+							md = metadata.Join(md, metadata.Pairs(common.IntraProxyHeaderKey, common.IntraProxyHeaderValue,
+								common.IntraProxyOriginProxyIDHeader, "proxy-x", common.IntraProxyHopCountHeader, "1", common.IntraProxyTraceIDHeader, "t"))
+							e.Count("calls_with_intra_proxy_headers")
 						}
 						t0 := time.Now()
 						dec, saw, code := callThrough(conn, be, m, md)
